@@ -18,11 +18,22 @@ ERR = {'InvalidStrategy': 'InvalidStrategy', 'InsufficientMargin': 'Insufficient
 
 def gen_session(rng, max_n=180, allow_two=True, fast=None, kinds=('futures', 'futures', 'spot'), isolated=None,
                 tfs=('1m', '1m', '3m', '5m', '15m'), data=True, leverage=None, rich=True, tight=False, vol=4, gap_prob=0.2,
-                lengths=None, force=None):
+                lengths=None, force=None, watch=False):
     nsym = rng.choice([1, 1, 2]) if allow_two else 1
+    if watch:
+        # one traded symbol on a timeframe above 1m plus a symbol that is only watched, also above 1m
+        nsym = 1
+        tfs = tuple(t for t in tfs if t != '1m') or ('3m', '5m')
     syms = SYMS[:nsym]
     routes = [(s, rng.choice(tfs)) for s in syms]
     droutes = []
+    if watch:
+        syms = SYMS[:2]
+        droutes.append((SYMS[1], rng.choice(['3m', '5m', '15m'])))
+    elif allow_two and data and nsym == 1 and rng.random() < 0.25:
+        # a second symbol that is only watched (data routes, no trading route)
+        syms = SYMS[:2]
+        droutes.append((SYMS[1], rng.choice(['1m', '3m', '5m', '15m'])))
     if data:
         for s in syms:
             for tf in rng.sample(['3m', '5m', '15m', '30m'], rng.randint(0, 2)):
@@ -53,8 +64,41 @@ def candles_of(sess):
     """n trading rows per symbol, preceded by sess['warmup'] warm-up rows when that is set (run_real splits them off)"""
     rr = random.Random(sess['candle_seed'])
     w = sess.get('warmup', 0)
+    if sess.get('rows'):            # explicit candles [(o, c, h, l, v)] per symbol (micro sessions)
+        return {s: bt.make_candles([tuple(float(x) for x in r) for r in sess['rows'][s]]) for s in sess['syms']}
     return {s: bt.make_candles(engine.gen_candles(rr, sess['n'] + w, gap_prob=sess.get('gap_prob', 0.2), vol=sess.get('vol', 4)))
             for s in sess['syms']}
+
+
+def micro_sessions(rng, count, exhaustive_pts=None):
+    """one decisive minute on a small price lattice: a flat first candle at 100 where the strategy rests up to three
+    entry orders at lattice prices around it (ties with each other and with the coming open/high/low/close included),
+    then ONE arbitrary valid candle of the lattice (optionally opening with a gap), then a flat candle far away.
+    Normal simulator, 1m route, futures, fee 0."""
+    step = 0.5
+    pts = exhaustive_pts or [-2, -1, 0, 1, 2]
+    shapes = [(o, h, l, c) for o in pts for h in pts for l in pts for c in pts if l <= o <= h and l <= c <= h]
+    out = []
+    for _ in range(count):
+        o, h, l, c = rng.choice(shapes)
+        k = rng.choice([2, 3, 3])
+        offs = [rng.choice([x for x in pts if x != 0] + [l, h, c]) for _ in range(k)]
+        offs = [x for x in offs if x != 0] or [1]
+        side = rng.choice(['long', 'short'])
+        rows = [(1.0, x * step) for x in offs]
+        script = {side: {'every': 1000, 'phase': 0, 'rows': rows}}
+        if rng.random() < 0.5:
+            script['on_open'] = {'sl': [(0, rng.choice([1, 2, 3]) * step)], 'tp': [(0, rng.choice([1, 2, 3]) * step)]}
+        base = 100.0
+        candles = [(base, base, base, base, 1.0),
+                   (base + o * step, base + c * step, base + h * step, base + l * step, 2.0),
+                   (base + c * step, base + c * step, base + c * step, base + c * step, 1.0),
+                   (base + c * step, base + c * step, base + c * step, base + c * step, 1.0)]
+        out.append({'kind': 'futures', 'balance': 100_000, 'fee': 0, 'leverage': 2, 'isolated': False, 'fast': False,
+                    'syms': ['BTC-USDT'], 'routes': [('BTC-USDT', '1m')], 'droutes': [], 'n': len(candles),
+                    'scripts': {'BTC-USDT': script}, 'rows': {'BTC-USDT': candles}, 'candle_seed': rng.randrange(1 << 30),
+                    'vol': 0, 'gap_prob': 0})
+    return out
 
 
 def rows_w(rows):
@@ -174,7 +218,7 @@ def run_real(sess, cands, extra_observer=None):
         ex = list(st['exchanges'].values())[0]
         wallet = ex['assets']['USDT']
         fin = f'END wallet={purecorr.num(wallet)} ' + ' '.join(
-            f'pos{i}={purecorr.num(st["positions"][f"Sandbox-{s}"]["qty"])}' for i, s in enumerate(sess['syms']))
+            f'pos{i}={purecorr.num(st["positions"].get(f"Sandbox-{s}", {"qty": 0})["qty"])}' for i, s in enumerate(sess['syms']))
         fin += f' trades={len(tr.final["trades"])} liq={tr.final["liquidations"]}'
         events.append(fin)
     return events, tr, err
@@ -214,6 +258,8 @@ def compare_sessions(res, sessions, cls='corr/engine'):
         if err is not None and model and model[-1].startswith('END'):
             model = model
         desc = {k: sess[k] for k in ('kind', 'fee', 'leverage', 'isolated', 'fast', 'routes', 'droutes', 'n', 'scripts', 'candle_seed')}
+        if sess.get('rows'):
+            desc['rows'] = sess['rows']
         res.count('sessions:' + ('fast' if sess['fast'] else 'step') + ':' + sess['kind'])
         res.count('events', len(ev))
         fills = sum(1 for x in ev if x.startswith('FILL'))
